@@ -91,6 +91,10 @@ usage:
 			return nil, fmt.Errorf("duplicated: %s", s[0])
 		}
 		seen[s[0]] = struct{}{}
+		if len(s) < 2 && s[0] != "readonly" {
+			// everything but the readonly flag is name=value; s[1] is used below
+			return nil, fmt.Errorf("missing value: %s", s[0])
+		}
 		switch s[0] {
 		case "columns":
 			err = convertSchema(internal.UnquoteAll(s[1]), table)
